@@ -70,7 +70,7 @@ def run(env, tier, seed, broken=None):
     # strings
     bangla = [chr(c) for c in range(0x980, 0xA00) if unicodedata.category(chr(c)) != 'Cn']
     decomposable = [chr(c) for c in range(0x980, 0xA00) if unicodedata.normalize('NFD', chr(c)) != chr(c)]
-    strs = ['100%', '%d', '%!', 'a%sb%v', '%%', 'trail\n', '\n', '\n\n', 'a\n\nb\n', '', 'a', 'abc', 'x y', 'তারিখ', 'ক্ষ', 'কো', 'কো', 'য়', 'য়', 'ড়ঢ়', 'é', 'é', 'Å', 'ñ', 'Ω', '1e3', ' pad ', 'tab\there', 'quote\'s', 'back\\slash', 'new\nline']
+    strs = ['100%', '%d', '%!', 'a%sb%v', '%%', 'trail\n', '\n', '\n\n', 'a\n\nb\n', '', 'a', 'abc', 'x y', 'তারিখ', 'ক্ষ', 'কো', 'কো', '\u09df', '\u09af\u09bc', 'ড়ঢ়', 'é', 'é', 'Å', 'ñ', 'Ω', '1e3', ' pad ', 'tab\there', 'quote\'s', 'back\\slash', 'new\nline']
     strs += decomposable + [unicodedata.normalize('NFD', c) for c in decomposable] + ['ক' + c for c in bangla if unicodedata.combining(c)]
     for _ in range(400 if tier == 'quick' else 20000):
         strs.append(''.join(rng.choice(bangla + list('abc xyz') + ['́', '়', '্']) for _ in range(rng.randint(1, 12))))
